@@ -92,7 +92,27 @@ func numRat(v *Value) *big.Rat {
 	return r
 }
 
+// diff first compares without keeping paths (the path of a value nested d levels deep is O(d)
+// long, which made comparing a 10^4-deep document quadratic); only when the trees differ is
+// the comparison repeated with paths, clipped to their last 200 bytes.
 func diff(a, b *Value, loose bool) string {
+	if diffCore(a, b, loose, false) == "" {
+		return ""
+	}
+	return diffCore(a, b, loose, true)
+}
+
+func diffCore(a, b *Value, loose, track bool) string {
+	child := func(p, seg string) string {
+		if !track {
+			return ""
+		}
+		s := p + seg
+		if len(s) > 240 {
+			s = "..." + s[len(s)-200:]
+		}
+		return s
+	}
 	type pair struct {
 		a, b *Value
 		path string
@@ -153,7 +173,7 @@ func diff(a, b *Value, loose bool) string {
 				return fmt.Sprintf("%s: array len %d vs %d", p.path, len(x.A), len(y.A))
 			}
 			for i := len(x.A) - 1; i >= 0; i-- {
-				stack = append(stack, pair{x.A[i], y.A[i], p.path + "[" + strconv.Itoa(i) + "]"})
+				stack = append(stack, pair{x.A[i], y.A[i], child(p.path, "["+strconv.Itoa(i)+"]")})
 			}
 		case Object:
 			if len(x.Keys) != len(y.Keys) {
@@ -165,7 +185,11 @@ func diff(a, b *Value, loose bool) string {
 				}
 			}
 			for i := len(x.Vals) - 1; i >= 0; i-- {
-				stack = append(stack, pair{x.Vals[i], y.Vals[i], p.path + "." + string(clipRaw(x.Keys[i]))})
+				seg := ""
+				if track {
+					seg = "." + string(clipRaw(x.Keys[i]))
+				}
+				stack = append(stack, pair{x.Vals[i], y.Vals[i], child(p.path, seg)})
 			}
 		}
 	}
